@@ -260,7 +260,14 @@ async fn listen_udp_task(args: ListenArgs, socket: UdpSocket) {
 
     loop {
         tokio::select! {
-            Ok((size, peer)) = socket.recv_from(&mut buf) => {
+            result = socket.recv_from(&mut buf) => {
+                let (size, peer) = match result {
+                    Ok(received) => received,
+                    Err(error) => {
+                        tracing::debug!(?error, "UDP receive error");
+                        continue;
+                    }
+                };
                 tracing::info!(?peer, "UDP request");
                 DNS_REQUESTS_TOTAL.with_label_values(&["udp"]).inc();
                 let bytes = BytesMut::from(&buf[..size]);
